@@ -18,6 +18,7 @@ EXPLANATION = (
     "C06.3 the TLS block is freed exactly once by its own thread: dealloc(get_tls_ptr()) on every path of the thread epilogue and of the panic handler's thread branch, and nowhere else; the main thread's branch exits the process instead. "
     "C06.4 the stack is unmapped last and nothing touches it afterwards: after the start function returns the trampoline takes munmap's arguments from callee-saved registers filled before the call, issues MUNMAP then EXIT with no stack-touching instruction in between; "
     "the panic path's asm! is nostack+noreturn, its inputs are the thread's recorded stack address/size and MUNMAP, and its template ends in EXIT. C06.5 the closure box is consumed by the start function. "
+    "C06.6 a failed spawn releases everything it had acquired (join block, boxed closure, stack mapping, TLS block) on every error return; "
     "NOT decided: VmSize/heap baselines after many threads (quantitative), kernel timing of the clear-tid write.")
 ASSUMPTIONS = ["CLONE_CHILD_CLEARTID semantics", "System V x86_64 callee-saved registers r12-r15, rbx, rbp"]
 
@@ -167,6 +168,9 @@ def run_one(ck, prog):
                                   (c.cfg.dominates(w, d) and mentions(c.args(d)[0], c.prov, lambda z: z[0] == "field" and z[2] == "tsm") and mentions(c.args(w)[0], c.prov, lambda z: z[0] == "field" and z[2] == "tsm")) for w in ws) for d in ds)
         ck.ob("C06.2", f"handle-frees-only-after-thread-exit|{p2.split('::')[-1] if 'Drop' not in p2 else 'Drop'}", ok, fn=p2, site=c.site(ds[0]) if ds else None,
               detail="the handle frees the join block without first waiting for the thread's exit word: the kernel still clears (and futex-wakes) that word when the thread exits, i.e. writes into freed memory")
+
+    # ---- C06.6 a failed spawn leaves nothing behind (shared with C05.2) ----------------------------------------------------
+    T.check_failure_release(ck, prog, "C06.6")
 
     # ---- C06.3 TLS freed once by its thread ------------------------------------------------------------------------------------
     tls_frees = {}
